@@ -2,6 +2,7 @@
 // Every execution runs in a fresh forked child of the (single-threaded) explorer process;
 // the child reports through a MAP_SHARED region that survives its death.
 #pragma once
+#include <fcntl.h>
 #include <signal.h>
 #include <sys/mman.h>
 #include <sys/wait.h>
@@ -35,6 +36,14 @@ struct Explorer {
 
   Explorer() {
     shm = (vs_shared *)mmap(nullptr, sizeof(vs_shared), PROT_READ | PROT_WRITE, MAP_SHARED | MAP_ANONYMOUS, -1, 0);
+  }
+  // file-backed control block (for children that exec another program with the preload library)
+  explicit Explorer(const std::string &path) {
+    int fd = open(path.c_str(), O_RDWR | O_CREAT | O_TRUNC, 0600);
+    if (fd >= 0 && ftruncate(fd, sizeof(vs_shared)) == 0)
+      shm = (vs_shared *)mmap(nullptr, sizeof(vs_shared), PROT_READ | PROT_WRITE, MAP_SHARED, fd, 0);
+    if (fd >= 0) close(fd);
+    if (shm == MAP_FAILED) shm = nullptr;
   }
   ~Explorer() {
     if (shm) munmap(shm, sizeof(vs_shared));
